@@ -550,6 +550,66 @@ Definition c_object (o : object) : list Z :=
 Definition c_device (d : device) : list Z :=
   flat_map (fun '(oid, o) => oid :: c_object o) (d_objs d).
 
+(* ---------- device life cycle: Application.add_object / delete_object (app.py 263-322) keep the local device's
+   objectList (ArrayOf.append 778-790, ArrayOf.index 833-840, ArrayOf.__delitem__ 818-828).  These are local events,
+   not requests; e is the element (the object identifier as stored in objectList). *)
+Definition P_OBJECT_LIST := 76.
+Definition elem_eqb (a b : elem) : bool :=
+  match a, b with EAtom k c, EAtom k' c' => (k =? k') && (c =? c') | _, _ => false end.
+Definition truthy (v : val) : bool :=             (* `if self.localDevice.objectList:` -> __len__ -> value[0] *)
+  match v with VNone => false | VArr n _ => negb (n =? 0) | VPyList l | VLst l => negb (zlength l =? 0) | VS _ => true end.
+Definition arr_append (v : val) (x : elem) : res val :=
+  match v with
+  | VArr _ l => Ok (VArr (zlength l + 1) (l ++ [x]))     (* value.append(x); value[0] = len(value) - 1 *)
+  | VPyList l => Ok (VPyList (l ++ [x]))
+  | _ => Err AttrErr
+  end.
+(* for i in range(1, value[0] + 1): if value == self.value[i]: return i *)
+Fixpoint find_idx (x : elem) (l : list elem) (fuel : nat) : res nat :=
+  match fuel with
+  | O => Err ValueErr
+  | S f => match l with
+           | [] => Err IndexErr
+           | y :: r => if elem_eqb x y then Ok O else do i <- find_idx x r f; Ok (S i)
+           end
+  end.
+Fixpoint remove_nth (l : list elem) (n : nat) : list elem :=
+  match l, n with [] , _ => [] | _ :: r, O => r | a :: r, S m => a :: remove_nth r m end.
+Definition arr_remove (v : val) (x : elem) : res val :=
+  match v with
+  | VArr n l => do i <- find_idx x l (Z.to_nat n); Ok (VArr (n - 1) (remove_nth l i))   (* del value[i]; value[0] -= 1 *)
+  | _ => Err AttrErr
+  end.
+Fixpoint del_obj (l : list (Z * object)) (oid : Z) : list (Z * object) :=
+  match l with [] => [] | (k, o) :: r => if k =? oid then r else (k, o) :: del_obj r oid end.
+
+Definition update_object_list (d : device) (objs : list (Z * object)) (f : val -> res val) : res device :=
+  match find_obj objs (d_self d) with
+  | None => Ok (mkDev (d_self d) objs)
+  | Some dev =>
+      match find_prop dev P_OBJECT_LIST with
+      | None => Err AttrErr
+      | Some (_, v) =>
+          if truthy v then do v' <- f v; Ok (mkDev (d_self d) (set_obj objs (d_self d) (set_prop dev P_OBJECT_LIST v')))
+          else Ok (mkDev (d_self d) objs)
+      end
+  end.
+Definition dev_add (d : device) (oid : Z) (ob : object) (e : elem) : res device :=
+  match find_obj (d_objs d) oid with
+  | Some _ => Err RuntimeErr                      (* "already an object with identifier" *)
+  | None => update_object_list d (d_objs d ++ [(oid, ob)]) (fun v => arr_append v e)
+  end.
+Definition dev_del (d : device) (oid : Z) (e : elem) : res device :=
+  match find_obj (d_objs d) oid with
+  | None => Err KeyErr
+  | Some _ => update_object_list d (del_obj (d_objs d) oid) (fun v => arr_remove v e)
+  end.
+
+Inductive event : Set :=
+| EReq (o : op)
+| EAdd (oid : Z) (ob : object) (e : elem)
+| EDel (oid : Z) (e : elem).
+
 (* the final state enters the comparison as a digest of its canonical list (keeps the case files small) *)
 Definition digest (l : list Z) : Z :=
   fold_left (fun h x => (h * 1000003 + x + 11) mod 2305843009213693951) l 7.
@@ -562,4 +622,14 @@ Fixpoint run (d : device) (ops : list op) : list Z :=
   match ops with
   | [] => [-7; digest (c_device d)]
   | o :: r => let (rep, d') := step d o in c_reply rep ++ run d' r
+  end.
+
+Fixpoint run_ev (d : device) (evs : list event) : list Z :=
+  match evs with
+  | [] => [-7; digest (c_device d)]
+  | EReq o :: r => let (rep, d') := step d o in c_reply rep ++ run_ev d' r
+  | EAdd oid ob e :: r =>
+      match dev_add d oid ob e with Ok d' => 6 :: run_ev d' r | Err x => [7; err_code x] end
+  | EDel oid e :: r =>
+      match dev_del d oid e with Ok d' => 6 :: run_ev d' r | Err x => [7; err_code x] end
   end.
